@@ -50,15 +50,16 @@ path = cache
 archive = archive
 transfers = transfers
 [inputs]
-files = inputs/named_files
-csvpaths = inputs/named_paths
+files = {inputs_prefix}inputs/named_files
+csvpaths = {inputs_prefix}inputs/named_paths
 on_unmatched_file_fingerprints = halt
 """
 
 
 class World:
-    def __init__(self, *, csvpath_policy=("collect", "print"), csvpaths_policy=("raise", "collect"), keep=False, log_level="error"):
+    def __init__(self, *, csvpath_policy=("collect", "print"), csvpaths_policy=("raise", "collect"), keep=False, log_level="error", inputs_prefix=""):
         self.log_level = log_level
+        self.inputs_prefix = inputs_prefix  # "" | "./" | ".//": the same directories, written less plainly in config.ini
         self.csvpath_policy = list(csvpath_policy)
         self.csvpaths_policy = list(csvpaths_policy)
         self.root = None
@@ -99,6 +100,7 @@ class World:
                     csvpaths_policy=", ".join(self.csvpaths_policy),
                     log_file=log_file,
                     log_level=self.log_level,
+                    inputs_prefix=self.inputs_prefix,
                 )
             )
 
